@@ -47,6 +47,8 @@ theorem handlers_pinned : handlerDigests = [
   ("StateMachine.ValidateAccountAddWithVesting", "1bead3f5bf25"),
   ("StateMachine.AccountAddWithVesting", "f8cea19acb35"),
   ("MessageSend.Check", "f5fe216d4887"),
+  ("MessageSubsidy.Check", "08cc30e3ca98"),
+  ("checkChainId", "5e572255da53"),
   ("StateMachine.SetPool", "df1558b2f6f2"),
   ("StateMachine.SetPools", "e08e17744db9"),
   ("StateMachine.MintToPool", "ad7616eeff77"),
